@@ -108,9 +108,26 @@ def extract():
                 env[st.targets[0].id] = E.ex(st.value, env)
             elif isinstance(st, ast.Return):
                 c = st.value
+                eta_clause = False
+                if isinstance(c, ast.BoolOp) and isinstance(c.op, ast.Or) and len(c.values) == 2:
+                    # `<threshold comparison> or eta <= 0.0`: the second clause closes the one-ulp gap between
+                    # the rounding of shat and of eta(z); over exact numbers it is implied by the first
+                    # (theorem eta_clause_is_redundant), so the model keeps the first comparison
+                    c2 = c.values[1]
+                    ok2 = (
+                        isinstance(c2, ast.Compare)
+                        and len(c2.ops) == 1
+                        and isinstance(c2.ops[0], ast.LtE)
+                        and E.ex(c2.left, env) == rep["nc_init"]["eta"]
+                        and E.ex(c2.comparators[0], env) == ("lit", fractions.Fraction(0))
+                    ) if rep.get("nc_init") else False
+                    if not ok2:
+                        raise Untranslatable("second clause of the guard is not `eta(z) <= 0`")
+                    eta_clause = True
+                    c = c.values[0]
                 if not isinstance(c, ast.Compare) or len(c.ops) != 1 or type(c.ops[0]) not in CMP:
                     raise Untranslatable("guard is not a single comparison")
-                return dict(lhs=E.ex(c.left, env), op=CMP[type(c.ops[0])], rhs=E.ex(c.comparators[0], env))
+                return dict(lhs=E.ex(c.left, env), op=CMP[type(c.ops[0])], rhs=E.ex(c.comparators[0], env), eta_clause=eta_clause)
             else:
                 raise Untranslatable("statement in is_below_pair_threshold")
         raise Untranslatable("no return")
@@ -297,6 +314,8 @@ def generate_thr(write=True):
             "namespace Yadism.Gen",
             "open Yadism Yadism.KExpr",
             "",
+            "/-- the guard has a second clause `or eta(z) <= 0` (rounding safety; redundant over exact numbers) -/",
+            f"def pairGuardEtaClause : Bool := {lean_bool(bool(g and g.get('eta_clause')))}",
             "/-- `NeutralCurrentBase.is_below_pair_threshold(z)` -/",
             f"def pairGuard : Guard := ⟨{to_lean(g['lhs']) if g else un}, Cmp.{g['op'] if g else 'lt'}, {to_lean(g['rhs']) if g else un}⟩",
             "/-- `self._xi`, `self._eta(z)` -/",
